@@ -415,6 +415,22 @@ func (s *Series) MaxOOOHeadT() int64 {
 	return m
 }
 
+// TagWBLSkipped is the known finding: when WAL replay ends in a corruption error (torn tail after a kill inside a
+// multi-page write) Head.Init returns before replaying the WBL; DB.Open repairs the WAL and carries on, so the
+// out-of-order samples of the head are missing until the next restart.
+const TagWBLSkipped = "wbl-not-replayed-after-wal-repair"
+
+// TagOOOHeadCells tags every cell that has a copy only reachable through the out-of-order head.
+func (m *Model) TagOOOHeadCells(tag string) {
+	for _, s := range m.Series {
+		for _, c := range s.Cells {
+			if c.OOOHead && c.KF == "" {
+				c.KF = tag
+			}
+		}
+	}
+}
+
 // TagTombHides is the known finding: a head tombstone hides samples appended into its range after the deletion.
 const TagTombHides = "head-tombstone-hides-later-append"
 
